@@ -258,6 +258,8 @@ pub enum Action {
     ForgetJob { job: JobId, sel: u32 },
     JobInfo,
     Query { arg: u32 },
+    /// the query the autoalloc process sends to the scheduler at its tick (generator version >= 2)
+    WorkerQuery { arg: u32 },
     StopWorker { worker: WorkerId },
     FlushJournal,
     PruneJournal,
@@ -288,13 +290,14 @@ pub struct Limits {
     pub max_jobs: usize,
 }
 
-pub const GEN_CURRENT: u8 = 1;
+pub const GEN_CURRENT: u8 = 2;
 
 pub struct Sim {
     pub profile: String,
     /// the choice sequence of the case (a restored server continues with a part of it)
     pub case_choices: Vec<(u16, u32)>,
     pub genv: u8,
+    pub last_alloc: Option<(u32, String)>,
     pub world: World,
     pub obs: Rc<RefCell<Obs>>,
     pub mon: Monitors,
@@ -371,6 +374,7 @@ impl Sim {
             profile: case.profile.clone(),
             case_choices: case.choices.clone(),
             genv: case.genv,
+            last_alloc: None,
             world,
             obs,
             mon: Monitors::default(),
@@ -491,7 +495,7 @@ impl Sim {
                 && world.sim_queues.values().any(|a| !a.is_empty())
             {
                 out.push((
-                    w.queue_ev,
+                    if self.genv >= 2 { w.queue_ev * 3 } else { w.queue_ev },
                     Action::ConnectAlloc {
                         palette: sub(c2, 3, palette::N_WORKER_PALETTE),
                         pick: c2,
@@ -534,6 +538,9 @@ impl Sim {
                 out.push((w.info, Action::JobInfo));
                 if self.genv >= 1 {
                     out.push((w.info, Action::Query { arg: c2 }));
+                }
+                if self.genv >= 2 && !world.server.scheduling_requested() {
+                    out.push((w.info, Action::WorkerQuery { arg: c2 }));
                 }
             }
             let alive: Vec<WorkerId> = world.workers.values().filter(|w| w.alive).map(|w| w.id).collect();
@@ -686,7 +693,13 @@ impl Sim {
                     .iter()
                     .flat_map(|(q, a)| a.iter().map(|x| (*q, x.clone())))
                     .collect();
-                let (q, alloc) = allocs[sub(pick, 151, allocs.len())].clone();
+                // generator version >= 2: every other worker joins the allocation of the previous
+                // one (allocations with several workers, possibly with different resources)
+                let (q, alloc) = match &self.last_alloc {
+                    Some(l) if self.genv >= 2 && sub(pick, 155, 2) == 0 && allocs.contains(l) => l.clone(),
+                    _ => allocs[sub(pick, 151, allocs.len())].clone(),
+                };
+                self.last_alloc = Some((q, alloc.clone()));
                 let info = hyperqueue::common::manager::info::ManagerInfo {
                     manager: hyperqueue::common::manager::info::ManagerType::Slurm,
                     allocation_id: alloc.clone(),
@@ -697,9 +710,24 @@ impl Sim {
                     hyperqueue::common::manager::info::WORKER_EXTRA_MANAGER_KEY.to_string(),
                     serde_json::to_string(&info).unwrap(),
                 );
+                let extra = cfg.extra.clone();
                 let id = self.world.connect_worker(cfg, palette);
                 self.obs.borrow_mut().class("worker-from-allocation");
-                format!("connect w{id} palette={palette} allocation={alloc} of queue {q}")
+                let mut d = format!("connect w{id} palette={palette} allocation={alloc} of queue {q}");
+                // generator version >= 2: every other time a second worker of the same allocation
+                // with other resources connects right away
+                let n_alive = self.world.workers.values().filter(|w| w.alive).count();
+                if self.genv >= 2 && sub(pick, 156, 2) == 0 && n_alive < self.limits.max_workers {
+                    let p2 = (palette + 1 + sub(pick, 157, palette::N_WORKER_PALETTE - 1)) % palette::N_WORKER_PALETTE;
+                    let (desc, group, limit) = palette::worker_descriptor(p2);
+                    self.worker_counter += 1;
+                    let mut cfg2 = palette::worker_configuration(desc, group, limit, self.worker_counter);
+                    cfg2.extra = extra;
+                    let id2 = self.world.connect_worker(cfg2, p2);
+                    self.obs.borrow_mut().class("allocation-with-several-workers");
+                    d.push_str(&format!("; connect w{id2} palette={p2} same allocation"));
+                }
+                d
             }
             Action::QueueEvent { arg } => {
                 let ev = self.world.senders.events.clone();
@@ -745,6 +773,62 @@ impl Sim {
                             }
                         }
                     }
+                }
+            }
+            Action::WorkerQuery { arg } => {
+                // what `perform_submits` of the autoalloc process asks the scheduler: one query per
+                // allocation queue, built as `create_queue_worker_query` does (resources of a
+                // worker that connected from the queue / the resource hints of the command line as
+                // a partial descriptor / nothing known)
+                use tako::control::WorkerTypeQuery;
+                let n = 1 + sub(arg, 200, 3);
+                let mut queries = Vec::new();
+                let mut what = Vec::new();
+                for i in 0..n as u32 {
+                    let p = palette::queue_parameters(arg.wrapping_add(i.wrapping_mul(7919)));
+                    let pal = sub(arg, 204 + i, palette::N_WORKER_PALETTE);
+                    let (descriptor, partial) = match sub(arg, 201 + i, 3) {
+                        0 => (palette::worker_descriptor(pal).0, false),
+                        1 => (palette::worker_descriptor(pal).0, true),
+                        _ => (tako::resources::ResourceDescriptor::new(vec![], Default::default()), true),
+                    };
+                    what.push(format!(
+                        "{}{}",
+                        if partial { "partial:" } else { "exact:" },
+                        if descriptor.resources.is_empty() { "-".to_string() } else { format!("p{pal}") }
+                    ));
+                    queries.push(WorkerTypeQuery {
+                        descriptor,
+                        partial,
+                        time_limit: Some(p.timelimit),
+                        max_sn_workers: p.backlog * p.max_workers_per_alloc,
+                        max_workers_per_allocation: p.max_workers_per_alloc,
+                        min_utilization: p.min_utilization,
+                    });
+                }
+                let r = self.world.server.server_ref().new_worker_query(&queries);
+                self.obs.borrow_mut().class("worker-query");
+                match r {
+                    Ok(resp) => {
+                        let mut bad = resp.single_node_workers_per_query.len() != queries.len();
+                        for (c, q) in resp.single_node_workers_per_query.iter().zip(&queries) {
+                            bad |= *c > q.max_sn_workers;
+                        }
+                        for m in &resp.multi_node_allocations {
+                            bad |= m.worker_type >= queries.len();
+                        }
+                        if bad {
+                            let step = self.world.step_no();
+                            self.obs.borrow_mut().alarm(
+                                "C09",
+                                step,
+                                "worker query answered with more workers than asked for or for an unknown query",
+                                format!("{what:?} -> {resp:?}"),
+                            );
+                        }
+                        format!("worker-query {what:?} -> {:?} mn={}", resp.single_node_workers_per_query, resp.multi_node_allocations.len())
+                    }
+                    Err(e) => format!("worker-query {what:?} -> error {e:?}"),
                 }
             }
             Action::Submit { arg, invalid } => self.do_submit(arg, invalid),
